@@ -1437,3 +1437,128 @@ def r11_7(rep):
                           "the file name is fixed (%s) inside a directory several generations can share: concurrent generations overwrite, "
                           "read and delete each other's file" % ", ".join(repr(x) for x in names[:3]), b.loc(c))
     rep.need(n >= 2, "file creations in the library")
+
+
+# =====================================================================================================
+# R11.8  the logger cannot change the output
+# =====================================================================================================
+LOG_ONLY = {"trace", "debug", "info", "warn", "error", "log"}
+CELL_WRITES = {"set", "replace", "update", "take", "swap", "borrow_mut", "get_mut", "replace_with"}
+
+
+@RULES.rule("R11.8", "log statements only observe: nothing they evaluate writes generation state", floor=200)
+def r11_8(rep):
+    """The `log` macros evaluate their arguments only when a logger is installed and the level is enabled — process-wide state that
+    is not an input of the generation.  bindgen hands out `_bindgen_ty_N` numbers lazily, the first time an item's name is asked
+    for (`Item::local_id` -> `next_child_local_id`, a `Cell` counter); a `debug!(.., item.canonical_name(ctx))` therefore renumbers
+    anonymous types whenever debug logging is on (seeded change: the same builder gave different bytes after `log::set_logger`).
+    Effect functions = every function that writes a `Cell` / `RefCell` directly (caches filled through `OnceCell::get_or_init` count
+    through what their initialiser reaches).  Per call and per formatted argument type inside a log macro: no effect function is
+    reachable (calls resolved by the compiler are followed exactly; unresolved trait calls fan out to every impl)."""
+    prog = rep.prog
+    import c07
+    effects = {}
+    for p, b in prog.bodies.items():
+        for c in b.calls():
+            cal = c.get("resolved") or c.get("callee") or ""
+            if cal.startswith(("std::cell::Cell::", "std::cell::RefCell::")) and cal.split("::")[-1] in CELL_WRITES:
+                effects.setdefault(p, set()).add(cal.split("::")[-1])
+    rep.need(len(effects) >= 5, "functions that write Cell / RefCell state")
+    rep.note("effect-functions", sorted(effects))
+    eff = set(effects)
+    cache = {}
+
+    def reach(f):
+        if f not in cache:
+            cache[f] = sorted(prog.reachable([f], precise=True) & eff)
+        return cache[f]
+    fmt_impls = defaultdict(list)
+    for p, b in prog.bodies.items():
+        tr = b.fact.get("impl_trait") or ""
+        if tr in ("std::fmt::Debug", "std::fmt::Display") and p.endswith("::fmt"):
+            fmt_impls[re.sub(r"<.*", "", b.fact.get("impl_self") or "")].append(p)
+    n = 0
+    per = defaultdict(int)
+    for p, b in sorted(prog.bodies.items()):
+        for c in b.calls():
+            if not c07.in_macro(b, c, LOG_ONLY):
+                continue
+            cal = c.get("resolved") or c.get("callee") or ""
+            targets = []
+            if cal in prog.bodies:
+                targets.append((cal, "calls `%s`" % cal))
+            elif "fmt::rt::Argument" in cal:
+                for t in re.findall(r"((?:ir|clang|codegen|options|callbacks|regex_set|features|parse)::[\w:]+)", c.get("gargs", "") or ""):
+                    for f in fmt_impls.get(t, []):
+                        targets.append((f, "formats a `%s` through `%s`" % (t, f)))
+            for f, how in targets:
+                n += 1
+                hit = reach(f)
+                fn = p.split("::")[-1]
+                who = re.sub(r"<.*", "", (b.fact.get("impl_self") or "").split("::")[-1])
+                key0 = "log-observes:%s@%s" % (f.split("::")[-1] if "Argument" not in cal else "fmt:" + f.split(" as ")[0].split("::")[-1],
+                                               (who + "::" if who else "") + fn)
+                per[key0] += 1
+                key = key0 if per[key0] == 1 else "%s#%d" % (key0, per[key0] - 1)
+                rep.check(not hit, key, "observes only" if not hit else
+                          "a log statement %s, which reaches %s: the state it writes (and with it the output) now depends on whether a "
+                          "logger is installed and on its level" % (how, ", ".join("`%s`" % h for h in hit[:3])), b.loc(c))
+    rep.need(n >= 200, "calls / formatted crate types inside log macros")
+
+
+# =====================================================================================================
+# R11.9  an output file holds exactly what this generation wrote
+# =====================================================================================================
+@RULES.rule("R11.9", "every file opened for writing starts empty", floor=2)
+def r11_9(rep):
+    """`Bindings::write_to_file` over an existing, longer file must not leave the old tail behind: then the file for given inputs
+    depends on what an earlier generation wrote to that path.  `File::create` and `fs::write` truncate; an `OpenOptions` chain that
+    asks for `write(true)` must also ask for `truncate(true)` (or `create_new(true)`), and never for `append`.  Checked for the
+    library and the command-line binary."""
+    progs = [("lib", rep.prog)]
+    try:
+        import facts
+        from hir import Program as _P
+        bf = facts.load_bin()
+        progs.append(("cli-bin", _P(bf[0] if isinstance(bf, tuple) else bf)))
+    except Exception as e:  # the binary's facts are produced together with the library's
+        rep.bad("bin-facts", "facts of the bindgen-cli binary are missing: %s" % e)
+    n = 0
+    for label, prog in progs:
+        for p, b in sorted(prog.bodies.items()):
+            for c in b.calls(lambda x: x["k"] == "MCall" and (x.get("callee") or x.get("resolved") or "").endswith("fs::OpenOptions::open")):
+                n += 1
+                chain = {}
+                x = strip(c["recv"])
+                seen = 0
+                while x.get("k") in ("MCall", "Local", "AddrOf") and seen < 20:
+                    seen += 1
+                    if x["k"] == "Local":
+                        # options set through statements on the builder variable (`opts.write(true).create(true);`)
+                        for m_ in b.nodes:
+                            if m_["k"] == "MCall" and "fs::OpenOptions::" in (m_.get("callee") or "") and m_ is not c and m_["name"] != "open":
+                                r_ = strip(m_["recv"])
+                                while r_.get("k") in ("MCall", "AddrOf"):
+                                    r_ = strip(r_["recv"] if r_["k"] == "MCall" else r_["e"])
+                                if r_.get("k") == "Local" and r_["id"] == x["id"]:
+                                    a_ = strip(m_["args"][0]) if m_.get("args") else {}
+                                    chain.setdefault(m_["name"], a_.get("v") if a_.get("k") == "Lit" else "?")
+                        init = b.local_init(x["id"])
+                        if init is None:
+                            break
+                        x = strip(init)
+                        continue
+                    if x["k"] == "AddrOf":
+                        x = strip(x["e"])
+                        continue
+                    a = strip(x["args"][0]) if x.get("args") else {}
+                    chain[x["name"]] = a.get("v") if a.get("k") == "Lit" else "?"
+                    x = strip(x["recv"])
+                who = re.sub(r"<.*", "", (b.fact.get("impl_self") or "").split("::")[-1])
+                key = "starts-empty@%s%s" % ((who + "::" if who else ""), p.split("::")[-1])
+                writes = chain.get("write") not in (None, False) or chain.get("append") not in (None, False)
+                ok = (not writes) or ((chain.get("truncate") is True or chain.get("create_new") is True) and chain.get("append") in (None, False))
+                rep.check(ok, key, "opened with %s" % ", ".join("%s(%s)" % kv for kv in sorted(chain.items())) if ok else
+                          "opened for writing without truncation (%s): writing a shorter output over an existing file keeps the old tail, so "
+                          "the result depends on an earlier run" % ", ".join("%s(%s)" % kv for kv in sorted(chain.items())), b.loc(c))
+    rep.need(n >= 2, "OpenOptions::open call sites")
